@@ -29,6 +29,7 @@ let op_of x = match list x with
   | [Sym "btrunc"; w; b; s] -> BlobTrunc (nn w, nn b, nn s)
   | [Sym "bfill"; w; b; s; c] -> BlobFill (nn w, nn b, nn s, List.map nn (list c))
   | [Sym "bget"; w; b; s] -> BlobGet (nn w, nn b, nn s)
+  | [Sym "reset"; w; b] -> ResetCp (nn w, nn b)
   | _ -> failwith "op"
 
 let obj_of_sx x = match x with
@@ -133,6 +134,6 @@ let c11_gen _ =
   let b x = N (if x then 1 else 0) in
   show (L [L [Sym "cp_locked"; b append_checkpoint_locked]; L [Sym "ev_locked"; b append_event_locked];
            L [Sym "notes_locked"; b notes_add_locked]; L [Sym "refresh_locked"; b post_commit_refresh_locked];
-           L [Sym "swallowed"; b rewrite_errors_swallowed]; L [Sym "blob_in_place"; b blob_rewritten_in_place]; L [Sym "max_events"; N (int_of_nat max_events)]])
+           L [Sym "swallowed"; b rewrite_errors_swallowed]; L [Sym "blob_in_place"; b blob_rewritten_in_place]; L [Sym "new_log_reset"; b post_commit_resets_new_log]; L [Sym "max_events"; N (int_of_nat max_events)]])
 
 let () = run_driver ["c11-run", c11_run; "c11-aidir", c11_aidir; "c11-gen", c11_gen] []
